@@ -140,7 +140,12 @@ def read_registrations():
         if isinstance(n, ast.Expr) and isinstance(n.value, ast.Call):
             c = n.value
             if isinstance(c.func, ast.Attribute) and c.func.attr == "delayed_load":
-                props = ast.literal_eval(c.args[0])
+                try:
+                    props = ast.literal_eval(c.args[0])
+                except (ValueError, TypeError, SyntaxError, IndexError):
+                    raise Unreadable("delayed_load (line %d): the registered names are not a literal list" % c.lineno)
+                if not isinstance(props, (list, tuple)) or not all(isinstance(x, str) for x in props):
+                    raise Unreadable("delayed_load (line %d): the registered names are not a list of strings" % c.lineno)
                 if not isinstance(c.args[1], ast.Name) or c.args[1].id not in loaders:
                     raise Unreadable("delayed_load: loader is not a _load_* function of __init__")
                 flags = dict(defaults)
